@@ -436,6 +436,9 @@ def directed_c01():
     D.append(("switch_last_in_loop_no_default", [("for", ("decl", "i", "0"), "i < n", ("inc", "i"), [E(1), ("switch", None, "i & 1", [("0", [Y("i + 1")])], None)]), Y("a")]))
     D.append(("switch_last_in_case_no_default", [("switch", None, "a & 1", [("0", [Y("a + 1"), ("switch", None, "b & 1", [("1", [Y("b + 2")])], None)])], [Y("a + 3")]), Y("b")]))
     D.append(("switch_after_combine_no_default", [("if", "g1", [Y("a + 1")], None), ("switch", None, "b & 1", [("1", [Y("b + 2")])], None)]))
+    D.append(("empty_case_clause_absorbs", [("for", ("decl", "i", "0"), "i < n + 2", ("inc", "i"), [("switch", None, "(i + a) & 3", [("0", []), ("1", [Y("i + 1")]), ("2", [])], [Y("i + 100"), E(1)])]), Y("b")]))
+    D.append(("empty_case_clause_tswitch", [("raw", "var t any = a\nif g1 {\n\tt = \"s\"\n} else if g2 {\n\tt = nil\n}"), ("tswitch", None, "t", [("string", []), ("int", [Y("a + 1")])], [Y("b + 2")]), Y("b + 3")]))
+    D.append(("empty_default_clause", [("switch", None, "a & 1", [("0", [Y("a + 1")])], []), Y("b + 2")]))
     D.append(("else_block_starts_with_trivial_if", [("if", "g1", [Y("a + 1")], [("if", "g2", [E(1)], None), Y("b + 2"), E(2)]), Y("a + 3")]))
     D.append(("else_block_trivial_if_in_loop", [("for", ("decl", "i", "0"), "i < n", ("inc", "i"), [("if", "i&1 == 0", [Y("i + 1")], [("if", "g2", [E(1)], None), E(2), Y("i + 2"), E(3)]), E(4)]), Y("a + 3")]))
     D.append(("yielding_switch_ends_loop", [("for", ("decl", "i", "0"), "i < n", ("inc", "i"), [("switch", None, "i&1", [("0", [Y("i + 1")])], None)]), Y("a + 2")]))
@@ -598,7 +601,11 @@ def corpus_check(ctx, fam, build, K, extra_adv, level_extra, assumptions, floors
     new, known, replayed, mism, details, fe_details = 0, [], 0, 0, [], []
     decided_tags, programs, compiled, rejected, unbuildable = {}, 0, 0, {}, {}
     sv_mism_extra, sv_extra = 0, 0
+    ratios = []
     for i, r in enumerate(runs):
+        # share of this run's programs that reached a verdict (rejected / unbuildable / undecided ones do not)
+        decided_pids = {r["corp"].pid_of_driver(d["name"]) for d in r["res"]["drivers"] if d["status"] in ("holds", "violated")}
+        ratios.append(round(len(decided_pids & set(r["corp"].programs)) / max(1, len(r["corp"].programs)), 3))
         if i > 0:
             res["drivers"] += r["res"]["drivers"]
             for k, v in r["res"].get("functions_encoded", {}).items():
@@ -631,6 +638,8 @@ def corpus_check(ctx, fam, build, K, extra_adv, level_extra, assumptions, floors
         "programs_rejected_by_compiler": len(rejected),
         "programs_output_unbuildable": len(unbuildable),
         "programs_without_output_file": sum(len(r["corp"].missing) for r in runs),
+        "decided_ratio_per_run": ratios,
+        "decided_ratio_min": min(ratios),
         "rejected_samples": dict(list(rejected.items())[:5]),
         "rejected_by_message": hist(rejected.values()),
         "unbuildable_by_message": hist(unbuildable.values()),
@@ -668,7 +677,7 @@ def plan_C01(ctx):
         "explanation": "per program one driver; every feasible path of source-under-coroutine-semantics followed by compiled-code+seq is executed from SSA and the two event logs are compared by one SMT query",
     }
     return corpus_check(ctx, "c01", build, K, 0, extra, [REF_ASSUMPTION, PROGRAM_DIM],
-                        floors={"drivers_holds": ctx.q(100, 1000)})
+                        floors={"drivers_holds": ctx.q(100, 1000), "decided_ratio_min": 0.8})
 
 
 CLAIMED["C01"] = plan_C01
@@ -689,6 +698,21 @@ def plan_C02(ctx):
             corp.add(gen.Program("dy_%s" % name, body, helpers=gen.C05_HELPERS, named_result=True, family="dyf", tags={"directed:" + name}))
             nd += 1
         counts["delegation_shapes"] = nd
+        # generators that start with argument checks: the check runs at the first advance, not at the call
+        G1 = ("if", "rt.Eff(901, n > 100)", [("raw", "panic(\"bad argument\")")], None)
+        G2 = ("if", "rt.Eff(902, a == b && n > 200)", [("raw", "panic(a)")], None)
+        ng = 0
+        for name, body in [("guard1", [G1, ("yield", "a + 1"), ("eff", 1), ("yield", "b + 2")]),
+                           ("guard2", [G1, G2, ("yield", "a + 1")]),
+                           ("guard_loop", [G2, ("for", ("decl", "i", "0"), "i < n", ("inc", "i"), [("yield", "i + a")]), ("eff", 2)]),
+                           ("guard_then_decl", [G1, ("decl", "x", "rt.Eff(903, a + 1)"), ("yield", "x"), ("yield", "x + b")]),
+                           ("guard_only_then_delegate", [G1, ("yieldfrom", "H2(a)")])]:
+            for form in ("func", "method", "lit", "generic"):
+                p = gen.Program("gd_%s_%s" % (name, form), body, helpers=gen.C05_HELPERS if "H2(" in repr(body) else "", named_result=True, family="grd", tags={"directed:" + name})
+                p.form = form
+                corp.add(p)
+                ng += 1
+        counts["argument_check_prologues"] = ng
         # range over a buffered channel with observers (len(ch), a second receiver) between the
         # receives: each advance performs exactly the receives of the source
         nch = 0
@@ -706,7 +730,7 @@ def plan_C02(ctx):
         "explanation": "flat equality of the marker+effect+yield log of source-under-coroutine-semantics and compiled code; because the engine is deterministic and the log contains the advance markers, equality of the full log implies equality at every truncation point k <= K",
     }
     return corpus_check(ctx, "c02", build, K, 2, extra, [REF_ASSUMPTION, PROGRAM_DIM],
-                        floors={"drivers_holds": ctx.q(100, 1000)})
+                        floors={"drivers_holds": ctx.q(100, 1000), "decided_ratio_min": 0.8})
 
 
 CLAIMED["C02"] = plan_C02
@@ -752,7 +776,7 @@ def plan_C18(ctx):
         "explanation": "every advance is wrapped in defer/recover; the log records which advance panicked and with which value (run-time panics by class); flat log equality source-under-coroutine-semantics vs compiled code",
     }
     return corpus_check(ctx, "c18", build, K, 0, extra, [REF_ASSUMPTION, PROGRAM_DIM, "run-time panics are compared by class (nil-deref, index, div-zero, nil-map, type-assert), explicit panic values structurally"],
-                        floors={"drivers_holds": ctx.q(100, 800)})
+                        floors={"drivers_holds": ctx.q(100, 800), "decided_ratio_min": 0.8})
 
 
 CLAIMED["C18"] = plan_C18
@@ -820,7 +844,7 @@ def plan_C05(ctx):
         "bounds": {"advances_K": K, "recursion_depth": "n in [-1,3]", "outside": "program shapes not generated; deeper recursion; more than K advances"},
         "explanation": "(i) source-under-coroutine-semantics vs compiled code, flat log with advance markers and delegate-side effects (one delegate step per consumer step, argument evaluated once); (ii) second pass on the generated package: compiled YieldFrom form vs compiled range form of the same body must produce equal logs (AssertSameLogs)",
     }
-    rc = corpus_check(ctx, "c05", build, K, 1, extra, [REF_ASSUMPTION, PROGRAM_DIM], floors={"drivers_holds": ctx.q(100, 800)}, second_pass=r"^DriveEq_")
+    rc = corpus_check(ctx, "c05", build, K, 1, extra, [REF_ASSUMPTION, PROGRAM_DIM], floors={"drivers_holds": ctx.q(100, 800), "decided_ratio_min": 0.8}, second_pass=r"^DriveEq_")
     return rc
 
 
@@ -855,6 +879,11 @@ def directed_c03():
     D.append(("multi_define_reassigns_parameter_before_yield", [("raw", "p := &a"), ("raw", "a, z := b+10, 1"), Y("a + z"), Y("*p + 2")]))
     D.append(("multi_define_reassigns_tswitch_guard", [("raw", "var t any = b"), ("tswitch", "v", "t", [("int", [("raw", "p := &v"), Y("v + 1"), ("raw", "v, w := v+a, 2"), Y("v + w"), Y("*p + 3")])], None), Y("b + 9")]))
     D.append(("multi_define_reassigns_loop_var_and_param", [("for", ("decl", "i", "0"), "i < n", ("inc", "i"), [("raw", "get := func() int { return b }"), Y("get() + i"), ("raw", "b, k := b+i+1, i"), Y("b + k"), Y("get() + 5")]), Y("b + 6")]))
+    # condition-less loops with ':=' initialisers: the variables stay local to the loop
+    D.append(("for_nocond_shadow_then_outer_use", [("decl", "x", "a + 100"), ("for", ("decl", "x", "0"), None, ("inc", "x"), [("if", "x >= n", [("break",)], None), Y("x + 1")]), Y("x + 2")]))
+    D.append(("for_nocond_shadow_param", [("for", ("decl", "a", "0"), None, ("inc", "a"), [("if", "a >= n", [("break",)], None), Y("a + 1")]), Y("a + 2")]))
+    D.append(("for_nocond_two_var_init_captured", [("decl", "x", "a + 100"), ("raw", "get := func() int { return x }"), ("for", ("raw", "x, j := 0, n+1"), None, ("raw", "x, j = x+1, j-1"), [("if", "x >= j", [("break",)], None), Y("x + get()")]), Y("get() + 2")]))
+    D.append(("for_nocond_native_shadow", [("decl", "x", "a + 7"), ("decl", "t", "0"), ("for", ("decl", "x", "0"), None, ("inc", "x"), [("if", "x >= n", [("break",)], None), ("assign", "t", "t + x")]), Y("x + t")]))
     D.append(("init_after_yield", [Y("a + 1"), ("for", ("decl", "x", "a"), "x < a + n", ("inc", "x"), [Y("x + 2")]), ("decl", "x", "b"), Y("x + 3")]))
     # loop-variable identity: closures created in one iteration, called after the loop
     D.append(("range_var_captured_escapes", [("raw", "var fs []func() int"), ("range", "_", "v", ":=", "[]int{a, b, a + b}", [("raw", "fs = append(fs, func() int { return v })"), Y("v + 1")]), ("raw", "for _, f := range fs {\n\tYield(f() + 1000)\n}")]))
@@ -914,7 +943,7 @@ def plan_C03(ctx):
 
     run22 = corpus_run(ctx22, "c03v", build22, K, 0)
     extra["bounds"]["outside"] = "program shapes not generated; closures escaping the generator (C06/C13); under go >= 1.22 semantics only the directed loop-variable shapes"
-    return corpus_check(ctx, "c03", build, K, 0, extra, [REF_ASSUMPTION, PROGRAM_DIM], floors={"drivers_holds": ctx.q(100, 1000)}, more_runs=[run22])
+    return corpus_check(ctx, "c03", build, K, 0, extra, [REF_ASSUMPTION, PROGRAM_DIM], floors={"drivers_holds": ctx.q(100, 1000), "decided_ratio_min": 0.8}, more_runs=[run22])
 
 
 CLAIMED["C03"] = plan_C03
@@ -952,7 +981,7 @@ def plan_C04(ctx):
     int_run = corpus_run(ctx22, "c04i", build_int, K, 0, nlo=-2, nhi=3)
     return corpus_check(ctx, "c04", build, K, 0, extra, [REF_ASSUMPTION, PROGRAM_DIM,
                         "string range / []rune(s) / utf8.DecodeRuneInString share one engine decoder; map range and reflect.MapIter share one insertion-ordered iterator"],
-                        floors={"drivers_holds": ctx.q(150, 200)}, more_runs=[int_run])
+                        floors={"drivers_holds": ctx.q(150, 200), "decided_ratio_min": 0.8}, more_runs=[int_run])
 
 
 CLAIMED["C04"] = plan_C04
@@ -972,7 +1001,7 @@ def plan_C06(ctx):
         "bounds": {"loop_bound_n": "[-1,2]", "outside": "consumer shapes not generated; nil iterators; Current() before the first advance as control input; consumer loops that re-declare their variable in the body (rejected by the Go type checker after lowering: C11 territory)"},
         "explanation": "drivers call a consumer function (range with break/continue/return at guard-controlled points, := and = forms, nested ranges, pull+range on one iterator, iterators in struct fields / maps / slices / closures, generic helpers, method and generic generators); log = generator-side effects + consumer-side effects + final result; flat equality source-under-coroutine-semantics vs generated code. Incomplete Iter type replacement shows up as a generated package that does not type-check (front-end refutation, reported as unbuildable, not as a solver verdict).",
     }
-    return corpus_check(ctx, "c06", build, 0, 0, extra, [REF_ASSUMPTION, PROGRAM_DIM], floors={"drivers_holds": ctx.q(150, 800)}, nlo=-1, nhi=2)
+    return corpus_check(ctx, "c06", build, 0, 0, extra, [REF_ASSUMPTION, PROGRAM_DIM], floors={"drivers_holds": ctx.q(150, 800), "decided_ratio_min": 0.8}, nlo=-1, nhi=2)
 
 
 CLAIMED["C06"] = plan_C06
@@ -1046,6 +1075,19 @@ def plan_C07(ctx):
         xs = gen.exprform_programs()
         for p in xs:
             corp.add(p)
+        # closures over functions of other imported packages whose signature is the only mention of a
+        # further import: whatever the optimiser does to them, import clean-up must leave a file that builds
+        IMPS = [("scanner", "bufio io", "var mk@ = func(r io.Reader) *bufio.Scanner { return bufio.NewScanner(r) }\nvar _ = mk@"),
+                ("writer", "bufio io", "var mk@ = func(w io.Writer) *bufio.Writer { return bufio.NewWriter(w) }\nvar _ = mk@"),
+                ("tabwriter_in_generator", "io text/tabwriter", None)]
+        for name, imps, decl in IMPS:
+            body = [("yield", "a"), ("yield", "b + 1")]
+            if decl is None:
+                body = [("raw", "mk := func(w io.Writer) *tabwriter.Writer { return tabwriter.NewWriter(w, 0, 8, 1, ' ', 0) }\n_ = mk"), ("yield", "a"), ("yield", "b + 1")]
+                decl = ""
+            p = gen.Program("im_%s" % name, body, helpers=("// EXTRA-IMPORTS: %s\n" % imps) + decl.replace("@", "im_" + name), named_result=True, family="imp_" + name, tags={"imports:" + name})
+            corp.add(p)
+        counts["import_cleanup_programs"] = len(IMPS)
         bys = gen.c13_programs()  # user closures in bystander functions of processed files
         for p in bys:
             corp.add(p)
@@ -1059,7 +1101,7 @@ def plan_C07(ctx):
     return corpus_check(ctx, "c07", build, K, 1, extra,
                         ["both worlds are plain Go (no coroutine intrinsics)", PROGRAM_DIM,
                          "the unoptimised world is the hook's output after removing the co import it no longer uses (go/types would otherwise reject it; production never builds that stage)"],
-                        floors={"drivers_holds": ctx.q(200, 2000)}, stage1=True, ref_tree="unopt")
+                        floors={"drivers_holds": ctx.q(200, 2000), "decided_ratio_min": 0.8}, stage1=True, ref_tree="unopt")
 
 
 CLAIMED["C07"] = plan_C07
